@@ -105,13 +105,13 @@ func writeReplay(ld *Loaded, id string, o *Obligation, work string) replayResult
 		smtPath := strings.TrimSuffix(path, ".json") + ".smt2"
 		os.WriteFile(smtPath, []byte(q.SMT), 0o644)
 		rf.SMT2 = smtPath
-		if q.Verdict == "sat" {
+		if q.Verdict != "" {
 			for _, rb := range replayBuilders {
 				if !rb.re.MatchString(o.Name) {
 					continue
 				}
 				raw := q.Model
-				if rb.bound != nil {
+				if rb.bound != nil && q.Verdict == "sat" {
 					if small := boundedModel(q, rb.bound(q.Values, q.SMT), work); small != "" {
 						raw = small
 					}
